@@ -24,6 +24,7 @@ class LogWork(Hooks):
         Returns:
             None
         """
+        super().pre_step(step, level_number)
         if level_number == 0:
             self.__work_last_step[step.status.slot] = [
                 {key: step.levels[i].prob.work_counters[key].niter for key in step.levels[i].prob.work_counters.keys()}
@@ -41,6 +42,7 @@ class LogWork(Hooks):
         Returns:
             None
         """
+        super().post_step(step, level_number)
         L = step.levels[level_number]
         for key in self.__work_last_step[step.status.slot][level_number].keys():
             self.add_to_stats(
